@@ -75,6 +75,9 @@ inductive Event
   | restart                                                 -- a new IPManager over the same storage replaces the live one
   | wl (ip : Nat) | unwl (ip : Nat)                         -- IPManager.AddToWhitelist / RemoveFromWhitelist (one address)
   | unexp (k : Nat)                                         -- the client's credentials never expire (ExpiresAt = nil)
+  | claim (k : Nat)                                         -- client service UpdateClient with a UserID: claimed, ExpiresAt KEPT
+  | bind (k : Nat)                                          -- client service BindToUser: UserID set, ExpiresAt cleared
+  | ext (k : Nat)                                           -- client service ExtendExpiration(days > 0): ExpiresAt in the future
   | issue (fails : Bool)                                    -- from now on GenerateAnonymousCredentials fails / works again
   | refill (ip : Nat)                                       -- time passes for the anonymous-connection limiter
   | exp (k : Nat) | del (k : Nat) | strip (k : Nat) (st : SecState)   -- credentials expire / config deleted / stored secret becomes `st`
@@ -173,6 +176,9 @@ def Env.track (g : Env) (now nc : Nat) (e : Event) (r : RespObs) : Env :=
   | .wl ip => { g with wl := upd g.wl ip true }
   | .unwl ip => { g with wl := upd g.wl ip false }
   | .unexp k => if k < nc && !(g.cl k).deleted then { g with cl := upd g.cl k { g.cl k with ExpiresAt := none } } else g
+  | .claim k => if k < nc && !(g.cl k).deleted then { g with cl := upd g.cl k { g.cl k with UserID := "u" } } else g
+  | .bind k => if k < nc && !(g.cl k).deleted then { g with cl := upd g.cl k { g.cl k with UserID := "u", ExpiresAt := none } } else g
+  | .ext k => if k < nc && !(g.cl k).deleted then { g with cl := upd g.cl k { g.cl k with ExpiresAt := some (now + ttl30) } } else g
   | .issue b => { g with issueFails := b }
   | .refill _ => g
   | .exp k => if k < nc && !(g.cl k).deleted then { g with cl := upd g.cl k { g.cl k with ExpiresAt := some (now - 1) } } else g
@@ -349,6 +355,9 @@ def stepCore (s : Srv) : Event → Srv × RespObs
   | .wl _ => (s, .na)
   | .unwl _ => (s, .na)
   | .unexp _ => (s, .na)
+  | .claim _ => (s, .na)
+  | .bind _ => (s, .na)
+  | .ext _ => (s, .na)
   | .issue _ => (s, .na)
   | .del _ => (s, .na)
   | .strip _ _ => (s, .na)
